@@ -1,0 +1,78 @@
+//go:build verif
+
+package syncer
+
+// Machine-checked contracts for package syncer, read by /verif/gocv. Comments
+// only; compiled solely under the build tag "verif".
+//
+// ---------------------------------------------------------------------------
+// C11: what a peer sends is accepted only after it has been checked. The peer is
+// arbitrary: callRPC may write anything into the response object.
+//
+//@ func (*Peer).callRPC
+//@   assigns pointee:r
+//@ func (*Peer).callRPCContext
+//@   assigns pointee:r
+//@ extern consensus.ValidateHeader pure
+//
+// hdrFold(k): the state obtained from the caller's state by applying the first k headers of
+// the response. This is a definition (the function symbol occurs nowhere else), introduced as
+// an assumption right after the response has been read.
+//@ spec func hdrFold(k int) consensus.State
+//
+// SendHeaders: a nil error means every header of the response was validated against the state
+// reached by applying its predecessors to the caller's state.
+//@ func (*Peer).SendHeaders props C11
+//@   nopanic
+//@   assigns nothing
+//@   requires p != nil
+//@   assumeafter callRPC [fold-def] : same(hdrFold(0), cs) && (forall k int :: { r.Headers[k] } 0 <= k && k < len(r.Headers) ==> same(hdrFold(k + 1), consensus.ApplyHeader(hdrFold(k), r.Headers[k], time.Time{})))
+//@   loop "range r.Headers"
+//@     invariant [state] same(cs, hdrFold(rangeindex + 1))
+//@     invariant [valid] forall k int :: { r.Headers[k] } 0 <= k && k <= rangeindex ==> consensus.ValidateHeader(hdrFold(k), r.Headers[k]) == nil
+//@   ensures [validated] result2 == nil ==> called("callRPC") && (forall k int :: { result0[k] } 0 <= k && k < len(result0) ==> consensus.ValidateHeader(hdrFold(k), result0[k]) == nil)
+//@   ensures [rejected] result2 != nil && callres("callRPC") == nil ==> len(result0) == 0
+//
+// SendCheckpoint: a nil error means the block is a v2 block with one miner payout, has the id that
+// was asked for, and commits to the state that came with it (under the caller's network).
+//@ func (*Peer).SendCheckpoint props C11
+//@   nopanic
+//@   assigns nothing
+//@   requires p != nil
+//@   ensures [checked] result2 == nil ==> result1.V2 != nil && len(result1.MinerPayouts) == 1 && result1.ID() == index.ID && result0.Network == n
+//@        && result1.V2.Commitment == result0.Commitment(result1.MinerPayouts[0].Address, result1.Transactions, result1.V2Transactions())
+//
+// The worker of the parallel sync (closure workFn of parallelSync). Above the v2 require height a
+// response without error carries exactly the requested number of blocks, ends at the requested
+// tip, and every block was validated against the state obtained from the (checked) checkpoint by
+// applying its predecessors; states[k] is the state after block k. Below it, every block has the
+// id of the header it was requested for. (The blocks then go to AddValidatedV2Blocks, which does
+// not validate again: C01.)
+//@ func (*Syncer).ban
+//@   assigns nothing
+//@ iface PeerStore.UpdatePeerInfo
+//@   assigns nothing
+//@ func (*Peer).SendV2Blocks props C11
+//@   assigns nothing
+//@   requires p != nil
+//@ func (*Syncer).parallelSync$1 props C11
+//@   nopanic
+//@   requires s != nil && p != nil && p.t != nil && s.pm != nil && cs.Network != nil
+//@   requires [aligned] req.numBlocks >= 1 && req.base.Height >= cs.Index.Height && req.base.Height - cs.Index.Height + req.numBlocks <= len(headers)
+//@   loop "range blocks"
+//@     invariant [frame] frameRows(resp.states)
+//@     invariant [blocks] resp.blocks == blocks && len(blocks) == req.numBlocks && len(blocks) > 0 && blocks[len(blocks)-1].ID() == req.tip.ID
+//@     invariant [count] len(resp.states) == rangeindex + 1
+//@     invariant [state] same(cs, ite(rangeindex < 0, loopentry(cs), resp.states[rangeindex]))
+//@     invariant [valid] forall k int :: { blocks[k] } 0 <= k && k <= rangeindex ==> consensus.ValidateBlock(ite(k == 0, loopentry(cs), resp.states[k-1]), blocks[k], consensus.V1BlockSupplement{}) == nil
+//@     invariant [applied] forall k int :: { resp.states[k] } 0 <= k && k <= rangeindex ==> same(resp.states[k], consensus.ApplyBlock(ite(k == 0, loopentry(cs), resp.states[k-1]), blocks[k], consensus.V1BlockSupplement{}, time.Time{}))
+//@   loop "range blocks" #2
+//@     invariant [match] forall k int :: { blocks[k] } 0 <= k && k <= rangeindex ==> blocks[k].ID() == headers[k].ID()
+//@   ensures [count] result.err == nil ==> len(result.blocks) == req.numBlocks
+//@   ensures [v2-validated] result.err == nil && req.base.Height >= cs.Network.HardforkV2.RequireHeight ==> called("SendCheckpoint") && callres("SendCheckpoint", 2) == nil
+//@        && len(result.states) == len(result.blocks) && len(result.blocks) > 0 && result.blocks[len(result.blocks)-1].ID() == req.tip.ID
+//@        && (forall k int :: { result.blocks[k] } 0 <= k && k < len(result.blocks) ==>
+//@             consensus.ValidateBlock(ite(k == 0, consensus.ApplyBlock(callres("SendCheckpoint", 0), callres("SendCheckpoint", 1), consensus.V1BlockSupplement{}, time.Time{}), result.states[k-1]), result.blocks[k], consensus.V1BlockSupplement{}) == nil
+//@          && same(result.states[k], consensus.ApplyBlock(ite(k == 0, consensus.ApplyBlock(callres("SendCheckpoint", 0), callres("SendCheckpoint", 1), consensus.V1BlockSupplement{}, time.Time{}), result.states[k-1]), result.blocks[k], consensus.V1BlockSupplement{}, time.Time{})))
+//@   ensures [v1-matched] result.err == nil && req.base.Height < cs.Network.HardforkV2.RequireHeight ==>
+//@        forall k int :: { result.blocks[k] } 0 <= k && k < len(result.blocks) ==> result.blocks[k].ID() == headers[req.base.Height - cs.Index.Height + k].ID()
